@@ -118,7 +118,12 @@ def loop_paths(ctx: Ctx, engine: ClassInfo, exc_edges="try", base_exc=False) -> 
                     tx = expand(t, evs)
                     qt = queue_truth(tx, k.queue_attr)
                     if qt is not None:
-                        s = LSym("QTEST", e, {"taken": e.x["taken"] if qt else (not e.x["taken"])})
+                        # the observation happens where the queue is read: at the branch itself for a
+                        # direct truthiness test, at the len()/bool() call when its result was kept
+                        read_idx = e.idx
+                        for nm in [n.id for n in ast.walk(t) if isinstance(n, ast.Name) and n.id.startswith("$c") and n.id[2:].isdigit()]:
+                            read_idx = min(read_idx, int(nm[2:]))
+                        s = LSym("QTEST", e, {"taken": e.x["taken"] if qt else (not e.x["taken"]), "read_idx": read_idx})
                     elif show(tx) == "self._rtc":
                         s = LSym("RTC?", e, {"taken": e.x["taken"]})
                         rtc = e.x["taken"]
